@@ -87,4 +87,21 @@ func init() {
 	// ---- C02 / C19
 	variant(Variant{"C02", "cache-freshness-flipped", "server/packs/snapshot.go", "if doc == nil || serverSeq < doc.Checkpoint().ServerSeq {", "if doc == nil || serverSeq > doc.Checkpoint().ServerSeq {", "O2.cache"})
 	variant(Variant{"C19", "tree-tombstone-overwrite-when-known", crdt + "tree.go", "\tif !tombstoneKnown && removedAt.After(n.removedAt) {\n\t\treturn true\n\t}", "\tif removedAt.After(n.removedAt) {\n\t\treturn true\n\t}", "O2.lww"})
+	// ---- round-3 rules
+	variant(Variant{"C14", "reverse-length-in-runes", "pkg/document/operations/edit.go", "len(utf16.Encode([]rune(e.content)))", "len([]rune(e.content))", "U16"})
+	variant(Variant{"C09", "span-length-in-bytes", "api/converter/from_pb.go", "if int(pbSpan.End-pbSpan.Start) != len(utf16.Encode([]rune(pbSpan.Content))) {", "if int(pbSpan.End-pbSpan.Start) != len(pbSpan.Content) {", "U16"})
+	variant(Variant{"C05", "memdb-empty-push-returns-zero-checkpoint", memdb, "\tinitialServerSeq := docInfo.ServerSeq\n\n\tfor _, cn := range changes {\n\t\tserverSeq := docInfo.IncreaseServerSeq()", "\tinitialServerSeq := docInfo.ServerSeq\n\tif len(changes) == 0 && !isRemoved {\n\t\treturn docInfo, change.InitialCheckpoint, nil\n\t}\n\n\tfor _, cn := range changes {\n\t\tserverSeq := docInfo.IncreaseServerSeq()", "CP.flow"})
+	variant(Variant{"C05", "snapshot-pull-applies-whole-request", pushpull, "\t\t\tpushedChanges,\n\t\t\tnil,\n\t\t\tnil,", "\t\t\treqPack.Changes,\n\t\t\tnil,\n\t\t\tnil,", "O2.dedup"})
+	variant(Variant{"C19", "remove-style-without-vector", "pkg/document/operations/tree_style.go", "e.from, e.to, e.attributesToRemove, e.executedAt, versionVector,", "e.from, e.to, e.attributesToRemove, e.executedAt, nil,", "VV.pass"})
+	variant(Variant{"C19", "merge-without-knowledge", crdt + "tree.go", "\t\t\t\tif ticketKnown(versionVector, node.id.CreatedAt) {\n\t\t\t\t\ttoBeMergedNodes = append(toBeMergedNodes, node)", "\t\t\t\tif node != nil {\n\t\t\t\t\ttoBeMergedNodes = append(toBeMergedNodes, node)", "VIS.collect"})
+	variant(Variant{"C19", "insert-before-off-by-one", "pkg/index/tree.go", "\tif err := n.insertAtInternal(newNode, offset); err != nil {\n\t\treturn err\n\t}\n\n\tnewNode.UpdateAncestorsLength(newNode.PaddedLength())\n\tnewNode.UpdateAncestorsLength(newNode.PaddedLength(true), true)\n\n\treturn nil\n}\n\n// InsertAfter", "\tif err := n.insertAtInternal(newNode, offset+1); err != nil {\n\t\treturn err\n\t}\n\n\tnewNode.UpdateAncestorsLength(newNode.PaddedLength())\n\tnewNode.UpdateAncestorsLength(newNode.PaddedLength(true), true)\n\n\treturn nil\n}\n\n// InsertAfter", "IDX.pos"})
+	variant(Variant{"C15", "remove-skip-guard-on-container", "pkg/document/operations/remove.go", "if source == OpSourceUndoRedo && isRemovedOrOrphaned(root, target) {", "if source == OpSourceUndoRedo && isRemovedOrOrphaned(root, parentElem) {", "S7.skip"})
+	variant(Variant{"C14", "reconcile-undo-stack-only", "pkg/document/history.go", "\treplace(h.undoStack)\n\treplace(h.redoStack)\n}\n\n// ReconcileTextEdit", "\treplace(h.undoStack)\n}\n\n// ReconcileTextEdit", "HIST.sym"})
+	variant(Variant{"C18", "yson-tree-attrs-with-tombstones", "pkg/document/yson/to_yson.go", "\t\t\tattrs = crdtNode.Attrs.Elements()", "\t\t\tattrs = make(map[string]string)\n\t\t\tfor _, attr := range crdtNode.Attrs.Nodes() {\n\t\t\t\tattrs[attr.Key()] = attr.Value()\n\t\t\t}", "YSON.live"})
+	variant(Variant{"C08", "text-node-copy-shares-value", crdt + "rga_tree_split.go", "\t\tvalue:     s.value.DeepCopy().(V),", "\t\tvalue:     s.value,", "DC.deep"})
+	variant(Variant{"C08", "load-or-store-hands-out-shared-presence", "pkg/document/presence/inner/presence.go", "\tif actual, ok := m.presences[clientID]; ok {\n\t\tpresence = actual\n\t}\n", "\tif actual, ok := m.presences[clientID]; ok {\n\t\treturn actual\n\t}\n", "P.cow"})
+	variant(Variant{"C08", "presence-store-without-copy-on-write", "pkg/document/presence/inner/presence.go", "\tm.presences[clientID] = presence.DeepCopy()\n}", "\tm.presences[clientID] = presence\n}", "P.cow"})
+	variant(Variant{"C20", "cached-range-marked-beyond-its-end", "server/backend/database/mongo/changestore.go", "\t\tend := min(fr.To, to)", "\t\tend := max(fr.To, to)", "CS.ensure"})
+	variant(Variant{"C07", "moved-slot-liveness-after-insertion", crdt + "rga_tree_list.go", "\tnode := newBarePositionNode(posCreatedAt)\n\tnode.elementEntry = entry\n\tentry.positionNode = node\n\n\tprevNode := a.last\n\tinsertNodeAfter(prevNode, node)\n\ta.last = node\n\n\ta.nodeMapByIndex.InsertAfter(prevNode.indexNode, node.indexNode)\n", "\tnode := newBarePositionNode(posCreatedAt)\n\n\tprevNode := a.last\n\tinsertNodeAfter(prevNode, node)\n\ta.last = node\n\n\ta.nodeMapByIndex.InsertAfter(prevNode.indexNode, node.indexNode)\n\tnode.elementEntry = entry\n\tentry.positionNode = node\n", "W.live"})
+	variant(Variant{"C09", "primitive-operand-without-type", "api/converter/to_pb.go", "\tcase *crdt.Counter:\n\t\tpbCounterType, err := toCounterType(elem.ValueType())\n\t\tif err != nil {\n\t\t\treturn nil, err\n\t\t}\n\t\tcounterValue, err := elem.Bytes()", "\tcase *crdt.Counter:\n\t\tpbCounterType, err := toCounterType(crdt.IntegerCnt)\n\t\tif err != nil {\n\t\t\treturn nil, err\n\t\t}\n\t\tcounterValue, err := elem.Bytes()", "S3.value"})
 }
